@@ -140,6 +140,17 @@ MUTATIONS = [
     ("tlexport/quic/quic_session.py", '        dec = QuicDecryptor(dec_keys, AESGCM, early=False)', '        dec = QuicDecryptor(dec_keys, AESGCM, early=True)', 'set_initial_decryptor: Initial decryptor built as an early-data decryptor'),
     ("tlexport/quic/quic_session.py", '        if keys is None:\n            self.can_decrypt = False\n            return\n\n        dec_keys', '        if keys is None:\n            return\n\n        dec_keys', 'set_initial_decryptor: can_decrypt kept when no keys'),
     ("tlexport/main.py", '    for buf, ts in all_decrypted_sessions:\n        writer.writepkt(bytes(buf), ts)', '    for buf, ts in reversed(all_decrypted_sessions):\n        writer.writepkt(bytes(buf), ts)', 'main.write_all: frames written in reverse order'),
+    # group QuicSess3: quic_session.py set_tls_decryptors
+    ("tlexport/quic/quic_session.py", '                self.hash_fun = SHA384\n                self.cipher = AESGCM\n                self.key_length = 32', '                self.hash_fun = SHA384\n                self.cipher = AESGCM\n                self.key_length = 16', 'set_tls_decryptors: 16-byte keys for TLS_AES_256_GCM_SHA384'),
+    ("tlexport/quic/quic_session.py", '                self.cipher = ChaCha20Poly1305', '                self.cipher = AESGCM', 'set_tls_decryptors: AES-GCM for the ChaCha20 suite'),
+    ("tlexport/quic/quic_session.py", '            if bytes.fromhex(key.client_random) == client_random:', '            if bytes.fromhex(key.client_random) != client_random:', 'set_tls_decryptors: the key-log entries of the OTHER connections'),
+    ("tlexport/quic/quic_session.py", '                [keys["server_handshake_key"], keys["server_handshake_iv"], keys["client_handshake_key"],\n                 keys["client_handshake_iv"]]', '                [keys["client_handshake_key"], keys["client_handshake_iv"], keys["server_handshake_key"],\n                 keys["server_handshake_iv"]]', 'set_tls_decryptors: handshake keys of the two directions swapped'),
+    ("tlexport/quic/quic_session.py", '                 keys["client_application_iv"], keys["server_application_sec"], keys["client_application_sec"]]', '                 keys["client_application_iv"], keys["client_application_sec"], keys["server_application_sec"]]', 'set_tls_decryptors: application secrets swapped'),
+    ("tlexport/quic/quic_session.py", '        except:\n            self.can_decrypt = False\n            logging.error("Missing Key Material")\n            return\n\n        try:\n            self.decryptors["Application"]', '        except:\n            logging.error("Missing Key Material")\n            return\n\n        try:\n            self.decryptors["Application"]', 'set_tls_decryptors: can_decrypt kept without handshake keys'),
+    ("tlexport/quic/quic_session.py", '            self.early_traffic_keys = True\n', '            pass\n', 'set_tls_decryptors: early_traffic_keys never set'),
+    ("tlexport/quic/quic_session.py", '        self.keys.update(keys)\n        try:', '        try:', 'set_tls_decryptors: derived keys not kept for header protection'),
+    ("tlexport/quic/quic_session.py", '                self.can_decrypt = False\n                return\n', '                self.can_decrypt = False\n', 'set_tls_decryptors: unknown suite goes on to derive keys'),
+    ("tlexport/quic/quic_session.py", '                [keys["client_early_key"],\n                 keys["client_early_iv"]], self.cipher, early=True)', '                [keys["client_early_key"],\n                 keys["client_early_iv"]], self.cipher, early=False)', 'set_tls_decryptors: early decryptor built with early=False'),
     # group QuicTls: quic_tls_parser.py
     ("tlexport/quic/quic_tls_parser.py", "            if p_type == 0x2ab2:", "            if p_type == 0x2ab3:", "get_quic_transport_parameters: grease_quic_bit under the wrong id"),
     ("tlexport/quic/quic_tls_parser.py", "            extension_body = extension_body[index + parameter_length:]", "            extension_body = extension_body[index + parameter_length + 1:]", "get_quic_transport_parameters: a byte skipped after each parameter"),
@@ -237,6 +248,7 @@ MUTATIONS = [
 
 # behaviour-preserving rewrites: (file, [(old, new)…], what)
 REWRITES = [
+    ("tlexport/quic/quic_session.py", [('            case b"\\x13\\x01":\n                self.hash_fun = SHA256\n                self.cipher = AESGCM\n                self.key_length = 16\n\n            # TLS_AES_256_GCM_SHA384\n            case b"\\x13\\x02":\n                self.hash_fun = SHA384\n                self.cipher = AESGCM\n                self.key_length = 32\n', '            case b"\\x13\\x02":\n                self.hash_fun = SHA384\n                self.cipher = AESGCM\n                self.key_length = 32\n\n            case b"\\x13\\x01":\n                self.hash_fun = SHA256\n                self.cipher = AESGCM\n                self.key_length = 16\n')], 'set_tls_decryptors: the first two cases in the other order'),
     ("tlexport/keylog_reader.py", [('    for line in lines:\n        key = get_key_from_line(line)\n        if key is not None:\n            keys.append(key)', '    for line in lines:\n        key = get_key_from_line(line)\n        if key is None:\n            continue\n        keys.append(key)')], 'get_keys_from_string: `continue` on a line that is no key'),
     ("tlexport/main.py", [('    if packet.dport in server_ports or packet.sport in server_ports:\n        sessions.append(', '    if packet.sport in server_ports or packet.dport in server_ports:\n        sessions.append(')], 'main.handle_packet: port tests swapped'),
     ("tlexport/quic/quic_session.py", [('                if isserver:\n                    self.server_cids.add(frame.connection_id)\n                else:\n                    self.client_cids.add(frame.connection_id)', '                if not isserver:\n                    self.client_cids.add(frame.connection_id)\n                else:\n                    self.server_cids.add(frame.connection_id)')], 'handle_frame: NEW_CONNECTION_ID branches swapped under `not`'),
@@ -310,6 +322,8 @@ def group_of(what):
     if fn in ("Dec.byte_xor", "get_cipher_type", "update_keys", "decrypt_tls13_aead", "decrypt_tls13_stream_cipher", "decrypt_tls12_aead",
               "decrypt_tls12_chacha20", "Decryptor.decrypt"):
         return ["Decrypt"]
+    if fn == "set_tls_decryptors":
+        return ["QuicSess3"]
     if fn in ("Key", "get_key_from_line", "get_keys_from_string"):
         return ["Keylog"]
     if fn.startswith("main."):
